@@ -4,6 +4,8 @@ import PyxisVerif.Props.C18
 #print axioms PyxisVerif.C18.lex_render_partial
 #print axioms PyxisVerif.C18.parse_print
 #print axioms PyxisVerif.C18.parse_print_no_trailing
+#print axioms PyxisVerif.C18.lex_render
+#print axioms PyxisVerif.C18.parse_render
 #print axioms PyxisVerif.C18.int_value
 #print axioms PyxisVerif.C18.int_value_in_context
 #print axioms PyxisVerif.C18.int_value_canonical
